@@ -402,6 +402,36 @@ func (s *scope) errCaseSplit(pr *proof, call *ssa.Call, idx int, isNil bool) {
 	cs := s.b.newScope(callee, prefix, s, call)
 	var cases [][]Cons
 	for _, r := range rets {
+		// single-exit style: the error returned is a phi of the return's block — one case per way in
+		if phi, isPhi := unspill(r.Results[ei]).(*ssa.Phi); isPhi && phi.Block() == r.Block() && len(phi.Edges) == len(r.Block().Preds) {
+			for i, e := range phi.Edges {
+				pred := r.Block().Preds[i]
+				if ff.EdgeInfeasible(pred, r.Block()) || ff.Infeasible(pred) {
+					continue
+				}
+				constNil := false
+				if c, ok := e.(*ssa.Const); ok && c.IsNil() {
+					constNil = true
+				}
+				if isNil && ff.ProvablyNonNil(e, pred, 0) || !isNil && constNil {
+					continue
+				}
+				sub := s.b.newProof()
+				sub.atoms, sub.done, sub.seenSp, sub.errNil, sub.errNon = pr.atoms, pr.done, pr.seenSp, pr.errNil, pr.errNon
+				cs.blockFacts(sub, pred)
+				if ef, ok := edgeFact(pred, r.Block()); ok {
+					cs.factCons(sub, ef)
+				}
+				// the error of a nested module call handed on: its own cases
+				if c2, idx2 := callOf(unspill(e)); c2 != nil && !constNil {
+					cs.errCaseSplit(sub, c2, idx2, isNil)
+				}
+				cases = append(cases, sub.cons)
+				pr.queue = append(pr.queue, sub.queue...)
+				pr.splits = append(pr.splits, sub.splits...)
+			}
+			continue
+		}
 		nonNil := ff.ProvablyNonNil(r.Results[ei], r.Block(), 0)
 		constNil := false
 		if c, ok := r.Results[ei].(*ssa.Const); ok && c.IsNil() {
